@@ -118,21 +118,35 @@ def gen_C09(g, tier):
         f = g.choice([0.0, 0.5, 0.999999, 1 - 1e-12, g.random()])
         th, ph = g.r.uniform(0, math.pi), g.r.uniform(0, 2 * math.pi)
         dq.append([s, s * f * math.sin(th) * math.cos(ph), s * f * math.sin(th) * math.sin(ph), s * f * math.cos(th)])
+    # weakly polarised: |v|/s from 1e-15 to 1e-6 (|v|^2 vanishes against s^2 in the determinant, not in the root)
+    weak = []
+    for _ in range(max(10, n // 4)):
+        s = 10 ** g.r.uniform(-50, 50) if g.random() < 0.3 else g.r.uniform(0.01, 10)
+        f = 10 ** g.r.uniform(-15, -6)
+        th, ph = g.r.uniform(0, math.pi), g.r.uniform(0, 2 * math.pi)
+        weak.append([s, s * f * math.sin(th) * math.cos(ph), s * f * math.sin(th) * math.sin(ph), s * f * math.cos(th)])
+    dq += weak
     dq.append([0.0, 0.0, 0.0, 0.0])
     for q in dq:
         p = math.sqrt(q[1] ** 2 + q[2] ** 2 + q[3] ** 2)
         det = q[0] * q[0] - q[1] * q[1] - q[2] * q[2] - q[3] * q[3]
         tag = 'double-det-negative' if det < 0 else ('double-det-zero' if det == 0 else 'double-psd')
+        if any(q is w for w in weak): tag = 'double-weakly-polarised'
         cs.append(Case('qd.sqrt %s' % hexes(q), 'cmp', tag))
         cs.append(Case('o.c09.sqrtd %s' % hexes(q), 'orc', tag, check=flags_then_small(2, 1e-12)))
     # double: polar decomposition over structure classes and condition numbers
     for _ in range(n):
-        kind = g.choice(['random', 'hermitian', 'unitary', 'diagonal', 'triangular', 'negdet', 'imagdet', 'illcond'])
+        kind = g.choice(['random', 'hermitian', 'unitary', 'diagonal', 'triangular', 'negdet', 'imagdet', 'illcond', 'nearunitary'])
         a = [g.r.uniform(-2, 2) for _ in range(8)]
         if kind == 'hermitian': a = [abs(a[0]) + 3, 0, a[2], a[3], a[2], -a[3], abs(a[6]) + 3, 0]
         elif kind == 'unitary':
             th, ph = g.r.uniform(0, 6.28), g.r.uniform(0, 6.28)
             a = [math.cos(th) * math.cos(ph), math.cos(th) * math.sin(ph), math.sin(th), 0, -math.sin(th), 0, math.cos(th) * math.cos(ph), -math.cos(th) * math.sin(ph)]
+        elif kind == 'nearunitary':   # a complex scalar times a boost of 1e-14..1e-6 times a unitary matrix
+            th, ph, b, c = g.r.uniform(0, 6.28), g.r.uniform(0, 6.28), 10 ** g.r.uniform(-14, -6), complex(g.r.uniform(-2, 2), g.r.uniform(0.5, 2))
+            u = [[complex(math.cos(th) * math.cos(ph), math.cos(th) * math.sin(ph)), complex(math.sin(th), 0)], [complex(-math.sin(th), 0), complex(math.cos(th) * math.cos(ph), -math.cos(th) * math.sin(ph))]]
+            m = [[c * (1 + b) * u[0][0], c * (1 + b) * u[0][1]], [c * (1 - b) * u[1][0], c * (1 - b) * u[1][1]]]
+            a = [m[0][0].real, m[0][0].imag, m[0][1].real, m[0][1].imag, m[1][0].real, m[1][0].imag, m[1][1].real, m[1][1].imag]
         elif kind == 'diagonal': a = [a[0], a[1], 0, 0, 0, 0, a[6], a[7]]
         elif kind == 'triangular': a = [a[0], a[1], a[2], a[3], 0, 0, a[6], a[7]]
         elif kind == 'negdet': a = [1.5, 0, 0.2, 0, 0.1, 0, -2.0, 0]
@@ -253,6 +267,7 @@ def gen_C10(g, tier):
                     note = ' #scale=2^%d #class=%s' % (k, cls)
                     vals = [up[(i, j)] * scale for i in range(size) for j in range(i, size)]
                     cs.append(Case('o.c10.jacobi %d %s%s' % (size, hexes(vals), note), 'orc', 'jacobi-real-' + cls, check=flags_then_small(1, 1e-12)))
+                    cs.append(Case('jac.real %d %s' % (size, hexes(vals)), 'cmp', 'jacobi-solver-real-' + cls))
                     if size in (2, 3, 4, 5, 6, 8):
                         cvals = []
                         for i in range(size):
@@ -274,11 +289,12 @@ C10 = dict(
     rule='exact: Hermitian quaternions with integer polarisation vectors for which every root is rational (incl. scalar part 0, '
          'degenerate and axis-aligned inputs); double: quaternions (random, degenerate, axis, near-axis, 1e-140), the 2x2 '
          'rotation-parameter routines (real and complex) compared bit for bit with the model at Float; the n x n solver for '
-         'n=2..8 over eight structure classes x scales 2^-500..2^500 through the residual oracle (finite, E A E^T = diag, '
-         'E E^T = 1 within 1e-12 / 1e-8 of ||A||)',
+         'n=2..8 over eleven structure classes x scales 2^-500..2^500: the real symmetric solver (all sweeps, thresholds, rotations, '
+         'eigenvalue bookkeeping) compared bit for bit with the model at Float (eigenvalues and eigenvector matrix), and real and '
+         'complex solvers through the residual oracle (finite, E A E^T = diag, E E^T = 1 within 1e-12 / 1e-8 of ||A||)',
     trusted=['GMP exact rationals', 'glibc sqrt'],
-    assumptions=['convergence of the sweep and the numeric tolerances are explored, not proved; the n x n sweep is not modelled'],
-    partial='Jacobi solver beyond a single rotation; accuracy 1e-12/1e-8; scale independence of the complex thresholds',
+    assumptions=['convergence of the sweep and the numeric tolerances are explored, not proved; the complex n x n sweep is not modelled'],
+    partial='convergence of the real solver within 50 sweeps and its accuracy 1e-12 in floating point (the theorems are exact-arithmetic invariants and the eigen-decomposition at the sum == 0 exit); the complex Hermitian solver beyond a single rotation, its accuracy 1e-8 and the scale independence of its thresholds',
 )
 
 SPECS = {'C09': C09, 'C10': C10}
